@@ -108,7 +108,7 @@ func checkPopOrder(c *Ctx, rule string) {
 func checkC10Round4(c *Ctx) {
 	p, r := c.P, c.R
 	W := p.Func("(*history.fileHistory).Write")
-	r.Rule("C10.tail-check-guard", "K4", "the last byte of the history file is inspected whenever the file is not empty (Size() > 0) and at offset Size()-1", 2)
+	r.Rule("C10.tail-check-guard", "K4", "the last byte of the history file is inspected whenever the file is not empty (Size() > 0), at offset Size()-1, and decides by being compared with the record terminator '\\n'", 3)
 	r.Rule("C10.write-before-success", "K1", "fileHistory.Write reports success for a non-blank line only after it appended the record to the file", 1)
 	if W == nil {
 		r.Unk("C10.tail-check-guard", "(*history.fileHistory).Write", "-", "anchor not found")
@@ -140,6 +140,38 @@ func checkC10Round4(c *Ctx) {
 			}
 		}
 		r.Check(okOff, "C10.tail-check-guard", siteKey(W, "ReadAt-offset", i), p.IPos(ra.(ssa.Instruction)), "offset Size()-1", "the tail check does not read the last byte (offset Size()-1): it reads past the end, fails, and the fresh-line repair is silently skipped")
+		// the byte read decides by being compared with '\n' — the record terminator — and nothing else
+		buf := ra.Common().Args[1]
+		nlTest := false
+		eachInstr(W, func(x ssa.Instruction) {
+			bo, ok := x.(*ssa.BinOp)
+			if !ok || (bo.Op != token.NEQ && bo.Op != token.EQL) {
+				return
+			}
+			k, isK := constInt(bo.Y)
+			if !isK || k != '\n' {
+				return
+			}
+			ld, ok := stripConv(bo.X).(*ssa.UnOp)
+			if !ok || ld.Op != token.MUL {
+				return
+			}
+			ia, ok := ld.X.(*ssa.IndexAddr)
+			if !ok {
+				return
+			}
+			if ia.X == buf || sameValue(ia.X, buf) {
+				// and it is a branch condition
+				if refs := bo.Referrers(); refs != nil {
+					for _, rf := range *refs {
+						if _, isIf := rf.(*ssa.If); isIf {
+							nlTest = true
+						}
+					}
+				}
+			}
+		})
+		r.Check(nlTest, "C10.tail-check-guard", siteKey(W, "ReadAt-newline-test", i), p.IPos(ra.(ssa.Instruction)), "the byte read is compared with '\\n'", "the last byte of the file is not tested against '\\n' (the record terminator): a torn record ending in another byte the test lets through (a space, the last byte of a multi-byte character) is taken for a complete one, and the next entry is glued to it and lost")
 	}
 	// every return whose error result may be nil and whose count is not the literal 0 (blank line) passes the file write
 	isFileWrite := func(in ssa.Instruction) bool { return isCallTo(in, "(*os.File).Write", "(*os.File).WriteString") }
